@@ -108,17 +108,14 @@ def run_case(ctx, case):
                 ctx.fail(case, f"{where}: returned register {name}={v} not visible in the host's shared memory "
                                f"({None if shm is None else shm.get_register(name)})")
                 return ctx.case(case, nontrivial)
-        for addr, at_pub in refs[app].shared_arrays.items():
+        if side.ex.ret_mismatch:
+            ctx.fail(case, f"{where}: {side.ex.ret_mismatch[0]}")
+            return ctx.case(case, nontrivial)
+        for addr in refs[app].shared_arrays:
             try:
-                host = list(shm._get_array(addr))
+                shm._get_array(addr)
             except Exception:
                 ctx.fail(case, f"{where}: returned array @{addr} not visible in the host's shared memory")
-                return ctx.case(case, nontrivial)
-            # a backend may alias the controller's list or copy it at ret_arr time: accept both, nothing else
-            now = refs[app].arrays.get(addr)
-            if host != at_pub and host != now:
-                ctx.fail(case, f"{where}: host sees array @{addr} = {host}; the controller returned {at_pub}"
-                               f"{'' if now == at_pub else ' (now ' + str(now) + ')'}")
                 return ctx.case(case, nontrivial)
         # no partial effect on the physical-qubit bookkeeping either: ids marked in use == ids mapped
         ex = side.ex
